@@ -186,7 +186,7 @@ structure DSt where
 
 def step (d : DSt) (line : String) : DSt × String :=
   match words line with
-  | ["case", n] => ({}, s!"case {n}")
+  | ["case", n] => ({ st := { legacyImm := d.st.legacyImm } }, s!"case {n}")
   | ws =>
     match parseOp d.st ws with
     | none => (d, "bad-op")
@@ -212,4 +212,7 @@ def step (d : DSt) (line : String) : DSt × String :=
           let c := if changes.isEmpty then "-" else ",".intercalate (changes.map fun (n, s) => s!"{n}={s}")
           ({ st := st, prev := cur }, s!"{e} | {c} | live={liveCount st} ## {verdict}")
 
-def main : IO Unit := runDriver step {}
+/-- `C08_IMM_REPAIRED=1`: follow hooks/fix-c08-3.patch (`ImmediateEffect::dispose` stops a running effect) -/
+def main : IO Unit := do
+  let v ← IO.getEnv "C08_IMM_REPAIRED"
+  runDriver step { st := { legacyImm := v != some "1" } }
